@@ -135,7 +135,7 @@ def oracle(case, rec, group):
 
 def run(tier, seed):
     return tracecheck.run(PID, tier, seed, {}, oracle, n_quick=250, n_thorough=4000, casegen=casegen,
-                          require_props=False, mask=1 | 2 | 4 | 8, shrink_budget=6)
+                          require_props=False, level="translation_validation", mask=1 | 2 | 4 | 8, shrink_budget=6)
 
 
 def replay(payload):
